@@ -233,7 +233,7 @@ pub fn run_c09(tier: Tier) -> Report {
 pub fn run_c16(tier: Tier) -> Report {
     let rep = Report::new("C16", "deblock", tier);
     let seed = crate::evidence::seed();
-    let (maxw, maxh) = if tier.thorough() { (128, 128) } else { (64, 64) };
+    let (maxw, maxh) = if tier.thorough() { (256, 200) } else { (64, 64) };
     let mut shapes = vec![];
     for w in 1..=maxw {
         for h in 0..=maxh {
